@@ -17,8 +17,8 @@ open Genshi Genshi.San.Spec
 /-! ### input forests and pruned forests -/
 
 mutual
-  /-- input leaves: plain text, comments, CDATA markers, processing instructions and DOCTYPE
-      declarations (any) -/
+  /-- input leaves: plain text, comments, CDATA markers, processing instructions, DOCTYPE
+      declarations and XML declarations (any) -/
   def prologTree : Node → Bool
     | .elem _ _ ks => prologForest ks
     | .leaf (.text _ f) => !f
@@ -27,6 +27,7 @@ mutual
     | .leaf .endCdata => true
     | .leaf (.pi _ _) => true
     | .leaf (.doctype _ _ _) => true
+    | .leaf (.xmlDecl _ _ _) => true
     | .leaf _ => false
   def prologForest : List Node → Bool
     | [] => true
@@ -59,7 +60,8 @@ theorem dtLiteral_no_gt {n : Str} {p s : Option Str} (h : dtHasGt n p s = false)
 def LeafGoodP (e : Event) : Prop :=
   (∃ s, e = .text s false) ∨
   (∃ t d, e = .pi t d ∧ (List.contains t '>' || List.contains d '>') = false) ∨
-  (∃ n p s, e = .doctype n p s ∧ dtHasGt n p s = false)
+  (∃ n p s, e = .doctype n p s ∧ dtHasGt n p s = false) ∨
+  (∃ v en sa, e = .xmlDecl v en sa)
 
 mutual
   def TreeGoodP (cfg : Cfg) : Node → Prop
@@ -128,8 +130,11 @@ mutual
         · simp only [prune, hgt, Bool.false_eq_true, ↓reduceIte] at h
           simp at h; subst h
           simp only [ForestGoodP, TreeGoodP, and_true]
-          exact Or.inr (Or.inr ⟨n, q, s, rfl, by simpa using hgt⟩)
-      | xmlDecl _ _ _ => simp [prologTree] at hpl
+          exact Or.inr (Or.inr (Or.inl ⟨n, q, s, rfl, by simpa using hgt⟩))
+      | xmlDecl v en sa =>
+        simp [prune] at h; subst h
+        simp only [ForestGoodP, TreeGoodP, and_true]
+        exact Or.inr (Or.inr (Or.inr ⟨v, en, sa, rfl⟩))
       | startNs _ _ => simp [prologTree] at hpl
       | endNs _ => simp [prologTree] at hpl
       | startCdata => simp [prune] at h; subst h; trivial
@@ -161,6 +166,7 @@ def FEvGood (cfg : Cfg) : Output.FEv → Prop
   | .text _ f => f = false
   | .pi t d => (List.contains t '>' || List.contains d '>') = false
   | .doctype n p s => dtHasGt n p s = false
+  | .xmlDecl _ _ _ => True
   | _ => False
 
 mutual
@@ -186,13 +192,15 @@ mutual
         · exact h3 ev hev
         · exact hloc
     | .leaf e, h => by
-      rcases h with ⟨s, rfl⟩ | ⟨t, d, rfl, hgt⟩ | ⟨n, p, s, rfl, hdt⟩
+      rcases h with ⟨s, rfl⟩ | ⟨t, d, rfl, hgt⟩ | ⟨n, p, s, rfl, hdt⟩ | ⟨v, en, sa, rfl⟩
       · refine ⟨by simp [Node.ok, Event.isStartEnd, Output.nsFree, Output.leafF], ?_⟩
         intro ev hev; simp [Output.treeF, Output.leafF] at hev; subst hev; rfl
       · refine ⟨by simp [Node.ok, Event.isStartEnd, Output.nsFree, Output.leafF], ?_⟩
         intro ev hev; simp [Output.treeF, Output.leafF] at hev; subst hev; exact hgt
       · refine ⟨by simp [Node.ok, Event.isStartEnd, Output.nsFree, Output.leafF], ?_⟩
         intro ev hev; simp [Output.treeF, Output.leafF] at hev; subst hev; exact hdt
+      · refine ⟨by simp [Node.ok, Event.isStartEnd, Output.nsFree, Output.leafF], ?_⟩
+        intro ev hev; simp [Output.treeF, Output.leafF] at hev; subst hev; trivial
   theorem forestF_good {cfg : Cfg} (hm : CfgMarkupOk cfg) : ∀ (ns : List Node), ForestGoodP cfg ns →
       (okList ns = true ∧ Output.forestNsFree ns = true) ∧ ∀ ev ∈ Output.forestF ns, FEvGood cfg ev
     | [], _ => by simp [okList, Output.forestNsFree, Output.forestF]
@@ -260,7 +268,7 @@ theorem fevGood_ok {cfg : Cfg} (hm : CfgMarkupOk cfg) {ev : Output.FEv} (h : FEv
       rw [h'.2] at this; cases this
   | doctype n p s => exact ⟨⟨rfl, fun _ => dtLiteral_no_gt h⟩, rfl⟩
   | comment _ => exact absurd h (by simp [FEvGood])
-  | xmlDecl _ _ _ => exact absurd h (by simp [FEvGood])
+  | xmlDecl _ _ _ => exact ⟨trivial, rfl⟩
   | startNs _ _ => exact absurd h (by simp [FEvGood])
   | endNs _ => exact absurd h (by simp [FEvGood])
   | startCdata => exact absurd h (by simp [FEvGood])
@@ -355,7 +363,10 @@ theorem htmlEvP_safe (hd : Genshi.Gen.SanClass.commentsDotall = true) {cfg : Cfg
       · trivial
       · exact hfl x hx
   | comment _ => exact absurd hg (by simp [FEvGood])
-  | xmlDecl _ _ _ => exact absurd hg (by simp [FEvGood])
+  | xmlDecl _ _ _ =>
+    intro x hx
+    simp only [Reader.htmlEvP, Reader.htmlEv] at hx
+    exact hr x hx
   | startNs _ _ => exact absurd hg (by simp [FEvGood])
   | endNs _ => exact absurd hg (by simp [FEvGood])
   | startCdata => exact absurd hg (by simp [FEvGood])
